@@ -858,3 +858,39 @@ Section Pipeline.
     intros Hok He. apply cfg_eqb_eq in He. subst real. rewrite <- surjective_pairing. apply passes_equiv, Hok.
   Qed.
 End Pipeline.
+
+(* ---------- hardening of the dispatcher keys (internal/ctrlflow/hardening.go) ----------
+   Both hardenings replace the constant k_i stored by fake block i and the constant compared by
+   if-block i by expressions; what matters is the value stored and the value compared with. *)
+Open Scope N_scope.
+
+(* xor: store  localKey ^ k_i  (localKey = globalKey at run time), compare with  k_i ^ globalKey *)
+Definition xor_store (g k : N) : N := N.lxor g k.
+Definition xor_compare (g k : N) : N := N.lxor k g.
+Lemma xor_store_is_compare g k : xor_store g k = xor_compare g k.
+Proof. apply N.lxor_comm. Qed.
+
+Lemma lxor_cancel_l a b c : N.lxor a b = N.lxor a c -> b = c.
+Proof.
+  intros H. assert (E : N.lxor a (N.lxor a b) = N.lxor a (N.lxor a c)) by (rewrite H; reflexivity).
+  rewrite <- !N.lxor_assoc, !N.lxor_nilpotent, !N.lxor_0_l in E. exact E.
+Qed.
+
+(* generateKeys(count, [globalKey]) yields distinct keys different from 0 and from the global key:
+   the effective keys are then again distinct and non-zero, which is what flattening needs *)
+Theorem xor_hardening_keys_ok g keys :
+  NoDup keys -> Forall (fun k => k <> g) keys ->
+  NoDup (map (xor_store g) keys) /\ Forall (fun e => e <> 0) (map (xor_store g) keys).
+Proof.
+  intros Hnd Hne. split.
+  - induction Hnd as [|k r Hk _ IH]; [constructor|]. cbn. inversion Hne; subst. constructor; [|apply IH; assumption].
+    intros Hin. apply in_map_iff in Hin as (k' & He & Hk'). apply lxor_cancel_l in He. subst. contradiction.
+  - apply Forall_forall. intros e He. apply in_map_iff in He as (k & <- & Hk).
+    pose proof (proj1 (Forall_forall _ _) Hne k Hk) as Hkg. unfold xor_store. intros H0. apply Hkg.
+    apply N.lxor_eq in H0. congruence.
+Qed.
+
+(* delegate_table: store  table[d](k ^ dk)  where  table[d](i) = i ^ dk ; compare with k *)
+Definition delegate_store (dk k : N) : N := N.lxor (N.lxor k dk) dk.
+Theorem delegate_store_is_key dk k : delegate_store dk k = k.
+Proof. unfold delegate_store. rewrite N.lxor_assoc, N.lxor_nilpotent, N.lxor_0_r. reflexivity. Qed.
